@@ -16,7 +16,7 @@ pub struct Params {
 }
 
 fn panic_info() -> String {
-    crate::LAST_PANIC.lock().unwrap().take().unwrap_or_else(|| "?".to_owned())
+    crate::take_last_panic().unwrap_or_else(|| "?".to_owned())
 }
 
 /// Runs the real decoder on `data` for `case` and compares with the reference. Returns true if "interesting"
@@ -132,6 +132,8 @@ pub fn gen_val(ty: &Ty, rng: &mut Rng, depth: u32) -> Val {
             let bits = 1 + rng.below((*w).min(62) as u64) as u32;
             Val::Int(((rng.next() as u128) >> (64 - bits)) as i128)
         }
+        Ty::VarIntIn(lo, hi) => Val::Int(*lo as i128 + rng.below((*hi - *lo) as u64 + 1) as i128),
+        Ty::VarUIntIn(lo, hi) => Val::Int((*lo + rng.below(*hi - *lo + 1)) as i128),
         Ty::Size => Val::Int((rng.next() >> (2 + rng.below(62))) as i128),
         Ty::Str => {
             let n = small(rng);
